@@ -9,7 +9,7 @@ SP = os.path.join(V.SPEC, 'avoid')
 def gen_histories(d, n, hlen, seed, tag='lifegen', conn_ids='{21, 22, 23}'):
     cfg = os.path.join(d, tag + '.cfg')
     open(cfg, 'w').write('SPECIFICATION Spec\nCONSTANTS\n ShapeIds = {1, 2}\n JuncIds = {11}\n ConnIds = %s\n HLEN = %d\nINVARIANTS EmitHist\nCHECK_DEADLOCK FALSE\n' % (conn_ids, hlen))
-    r = V.tlc(os.path.join(SP, 'Lifecycle.tla'), cfg, timeout=900, simulate='num=%d' % max(50, n // 100), extra=['-depth', str(hlen + 2)], seedv=seed, workers=4)
+    r = V.tlc(os.path.join(SP, 'Lifecycle.tla'), cfg, timeout=900, simulate='num=%d' % max(50, n // 20), extra=['-depth', str(hlen + 2)], seedv=seed, workers=4)
     hs = V.emitted_histories(r.out)
     random.Random(seed).shuffle(hs)
     return [json.loads(h) for h in hs[:n]], r
